@@ -117,7 +117,7 @@ func VerifNewSession(s *Server, co net.Conn, user, password, db string, capabili
 func VerifRun(cc *Session) { cc.Run() }
 
 // Read-only accessors used to describe the configuration in the evidence.
-func VerifNamespaceOf(cc *Session) *Namespace         { return cc.getNamespace() }
-func VerifSupportMultiQuery(n *Namespace) bool        { return n.supportMultiQuery }
-func VerifInTransaction(cc *Session) bool             { return cc.executor.isInTransaction() }
+func VerifNamespaceOf(cc *Session) *Namespace                  { return cc.getNamespace() }
+func VerifSupportMultiQuery(n *Namespace) bool                 { return n.supportMultiQuery }
+func VerifInTransaction(cc *Session) bool                      { return cc.executor.isInTransaction() }
 func VerifManagerNamespace(m *Manager, name string) *Namespace { return m.GetNamespace(name) }
